@@ -104,6 +104,20 @@ class Snapshot:
         self.cls_name: dict[int, str] = {}
         self.n = 0
 
+    def rebase(self, tgt: Any, attr: str) -> None:
+        """Record a user-made rebinding so that the full sweep expects it."""
+        if isinstance(tgt, types.ModuleType):
+            if (tgt.__name__, attr) in self.mod:
+                self.mod[(tgt.__name__, attr)] = vars(tgt).get(attr)
+            return
+        if isinstance(tgt, type):
+            for cid, c in self.classes.items():
+                if c is tgt or (isinstance(c, type) and issubclass(c, tgt)):
+                    try:
+                        self.cls[(cid, attr)] = _class_resolved(c).get(attr)
+                    except Exception:
+                        pass
+
     @classmethod
     def take(cls) -> "Snapshot":
         s = cls()
@@ -276,6 +290,15 @@ class WriteSet:
             tag = f"{_target_name(pair[0])}.{pair[1]}"
             self.entries.append((pair[0], pair[1], inspect.getattr_static(pair[0], pair[1], _MISSING), tag))
             self.tags.add(tag)
+
+    def rebase(self, tgt: Any, attr: str) -> bool:
+        """The *user* re-bound this attribute: what must be restored from now
+        on is the user's object (the state before the next call)."""
+        for i, (t, a, _, tag) in enumerate(self.entries):
+            if t is tgt and a == attr:
+                self.entries[i] = (t, a, inspect.getattr_static(t, a, _MISSING), tag)
+                return True
+        return False
 
     def check(self) -> list[dict]:
         out = []
